@@ -228,10 +228,14 @@ impl Exec {
             i.tasks[k].fut.take()
         };
         if let Some(f) = fut {
-            // the cancellation is announced before the drop so that what the destructors do
-            // (drop guards of handlers, release of children) follows it in the log
-            self.task_end_event(k, 2);
+            // announce the cancellation, then drop: what the destructors report (drop guards of
+            // handlers and callbacks) lies between the two events
+            let kind = self.0.borrow().tasks[k].kind;
+            if let TaskKind::Loop(a) = kind {
+                self.0.borrow_mut().log.push(vec![crate::ev::CRASH, a as u64]);
+            }
             let _ = std::panic::catch_unwind(std::panic::AssertUnwindSafe(move || drop(f)));
+            self.task_end_event(k, 2);
         }
         self.0.borrow_mut().cur = None;
     }
@@ -280,6 +284,11 @@ impl verif::Backend for Exec {
         self.spawn_local(kind, fut);
     }
     fn sleep(&self, d: Duration) -> verif::BoxFut {
+        // a timer task re-arming its sleep is the only witness that its previous submit returned
+        let cur = { let i = self.0.borrow(); i.cur.map(|c| i.tasks[c].kind) };
+        if let Some(TaskKind::Timer(a, k)) = cur {
+            self.0.borrow_mut().log.push(vec![crate::ev::TIMER_SLEEP, a as u64, k as u64, d.as_millis() as u64]);
+        }
         Box::pin(self.sleep_fut(d.as_millis() as u64))
     }
     fn dequeued(&self, ctx: u64, kind: &'static str) {
